@@ -53,7 +53,9 @@ class P:
                 pc.append("p\t%s\t%d\t%d" % (hx(src), k, nseeds))
         # two errors at one position: inside the text of an alias every token has the position of the alias word
         for al, srcs in (({"foo": "; '"}, ["foo", "foo a", "x; foo b c", "foo " + "a" * 3000]), ({"p": "a | | 'q", "r": ") \"x"}, ["p", "p z", "r", "b; r", "p\nr\n"]),
-                         ({"e": "echo ", "b": "| | ${x"}, ["e b", "e b c", "e e b"])):
+                         ({"e": "echo ", "b": "| | ${x"}, ["e b", "e b c", "e e b"]),
+                         # a parser error followed by an unterminated substitution inside one alias: the nested lexer's errors are handed over
+                         ({"p": "a | | $(", "q": "a | | `b", "u": "b ) $( c | |", "w": "a | | $(" + " " * 3000 + "x"}, ["p", "x; p", "p\n", "q", "u", "x | u", "w", "p p"])):
             alx = ",".join("%s=%s" % (hx(k), hx(v)) for k, v in al.items())
             for src in srcs:
                 pc.append("a\t%s\t%s\t%d" % (hx(src), alx, nseeds))
